@@ -65,6 +65,7 @@ ASSUMPTIONS = [
 REQUIRED_CLASSES = {
     "T:accepted": 0.02, "T:refused": 0.005, "T:two-temperatures": 0.02, "T:annealing-off": 10, "T:single-plateau": 10,
     "T:ends-before-n-iter": 0.01, "T:clipped-extra-decrement": 10, "fit:two-temperatures": 4,
+    "T:second-run-of-same-object": 0.02, "fit:second-run-of-same-object": 4,
     "S:grew-and-shrank": 0.01, "S:tie-at-bound": 10, "S:multi-block": 0.01, "fit:scale-adapted": 4, "S-real:adapted": 4,
 }
 
@@ -118,13 +119,14 @@ def ref_temperature_schedule(cfg):
     return out
 
 
-def judge_temperature(col: Collector, sub, inp, ref, trace, invs):
-    """trace[k] = temperature after iteration k (trace[0] after initialisation); invs likewise. Returns info dict."""
+def judge_temperature(col: Collector, sub, inp, ref, trace, invs, label=""):
+    """trace[k] = temperature after iteration k (trace[0] after initialisation); invs likewise. Returns info dict.
+    `label` (e.g. ':second-run') is appended to the bucket and names the run of the same algorithm object."""
     n = len(trace) - 1
-    info = dict(distinct=len({float(t) for t in trace}))
+    info = dict(distinct=len({float(t) for t in trace if isinstance(t, (int, float))}))
 
     def fail(bucket, k, obs, exp):
-        col.fail(sub, bucket, inp, observed=f"k={k}: {obs}", expected=exp)
+        col.fail(sub, bucket + label, inp, observed=f"k={k}{label}: {obs}", expected=exp)
 
     for k, (t, ti) in enumerate(zip(trace, invs)):
         if not (isinstance(t, (int, float)) and math.isfinite(t)):
@@ -191,6 +193,8 @@ def _classes_temperature(cfg, ref, outcome, info):
     if not ref["must_accept"]:
         cl.append("T:refusable")
     if outcome == "accepted":
+        if info.get("second_run") and info.get("distinct", 0) >= 2:
+            cl.append("T:second-run-of-same-object")
         if info.get("distinct", 0) >= 2:
             cl.append("T:two-temperatures")
         if ref["period"] is not None:
@@ -240,6 +244,7 @@ def run_direct(col: Collector, cfg, sub="direct"):
                      expected="LeaspyAlgoInputError refusal or acceptance")
             return "crashed", ref, info
         trace, invs = [algo.temperature], [algo.temperature_inv]
+        trace2, invs2 = [], []
         try:
             for k in range(1, cfg["n_iter"] + 1):
                 algo.current_iteration = k
@@ -250,12 +255,29 @@ def run_direct(col: Collector, cfg, sub="direct"):
             col.fail(sub, "accepted-config-does-not-run:" + exc_bucket(e), cfg, observed=f"iteration {len(trace)}: {e!r}",
                      expected=f"runs all {cfg['n_iter']} iterations")
             return "crashed", ref, info
+        # a second run of the SAME algorithm object (the API allows `algo.run` twice): every run starts with `_initialize_annealing()`
+        try:
+            algo._initialize_annealing()
+            trace2.append(algo.temperature)
+            invs2.append(algo.temperature_inv)
+            for k in range(1, cfg["n_iter"] + 1):
+                algo.current_iteration = k
+                algo._update_temperature()
+                trace2.append(algo.temperature)
+                invs2.append(algo.temperature_inv)
+        except Exception as e:
+            col.fail(sub, "second-run-of-same-object-does-not-run:" + exc_bucket(e), cfg, observed=f"second run, iteration {len(trace2)}: {e!r}",
+                     expected=f"re-initialises and runs all {cfg['n_iter']} iterations like the first run")
+            trace2 = []
     if ref["on"] and ref["P"] == 1 and ref["defined"] and ref["T0"] != 1:
         if not any("n_plateau" in str(w.message) for w in wlist):
             col.fail(sub, "single-plateau-not-warned", cfg, observed=[str(w.message)[:80] for w in wlist],
                      expected="warning that the temperature stays at its initial value")
     info = judge_temperature(col, sub, cfg, ref, trace, invs)
     info["trace_head"] = [float(t) for t in trace[:12]]
+    if trace2:
+        judge_temperature(col, sub, cfg, ref, trace2, invs2, label=":second-run")
+        info["second_run"] = True
     return "accepted", ref, info
 
 
@@ -694,7 +716,8 @@ def fit_strategy():
             return dict(L=draw(st.integers(1, 8)), band=[lo, draw(st.integers(lo + 50, 900))], f=draw(st.sampled_from([0.05, 0.1, 0.3, 0.5])))
 
         return dict(engine="fit", cfg=cfg, cohort=cohort, n_iter=n_iter, ann=ann, sampler_pop=draw(st.sampled_from(["Gibbs", "FastGibbs", "Metropolis-Hastings"])),
-                    pop=sp(), ind=sp(), seed=draw(st.integers(0, 50)))
+                    pop=sp(), ind=sp(), seed=draw(st.integers(0, 50)),
+                    twice=draw(st.sampled_from([False, False, True])))  # run the same algorithm object a second time
 
     return _c()
 
@@ -707,7 +730,39 @@ def _sampler_params(p, pop):
     return d
 
 
+def _judge_fit_run(col, sub, case, ref, rec, label=""):
+    """Oracle for one recorded run of an algorithm object. Returns (info, scale_infos) or None if the run is not judgeable."""
+    if rec["iters"] != list(range(1, case["n_iter"] + 1)) or len(rec["trace"]) != case["n_iter"] + 1:
+        col.fail(sub, "iterations-not-all-run" + label, case, observed=f"temperature updates at iterations {rec['iters'][:50]}",
+                 expected=f"one initialisation and one update per iteration 1..{case['n_iter']}")
+        return None
+    info = judge_temperature(col, sub, case, ref, rec["trace"], rec["invs"], label=label)
+    info["trace_head"] = [float(t) for t in rec["trace"][:12]]
+    # the inverse temperature handed to the samplers during iteration k is the one in force after iteration k-1
+    for k, name, ti in rec["used"]:
+        if not (1 <= k <= case["n_iter"]) or ti != rec["invs"][k - 1]:
+            col.fail(sub, "samplers-receive-other-temperature" + label, case,
+                     observed=f"iteration {k}{label}: sampler of {name} received temperature_inv={ti!r}",
+                     expected=f"{rec['invs'][k - 1]!r} (inverse of the temperature after iteration {k - 1})" if 1 <= k <= case["n_iter"] else "iteration in range")
+            break
+    scale_infos = []
+    for name, sr in sorted(rec["samplers"].items()):
+        pop = not type(sr.s).__name__.startswith("Individual")
+        p = case["pop"] if pop else case["ind"]
+        if not sr.order_ok or len(sr.stds) != case["n_iter"] + 1:
+            col.fail("fit-scale", "sampler-not-updated-once-per-iteration" + label, case,
+                     observed=f"{name}: {len(sr.stds) - 1} std updates, {len(sr.accs)} acceptance updates",
+                     expected=f"{case['n_iter']} of each, interleaved")
+            continue
+        si = judge_scales(col, "fit-scale", case, stds=sr.stds, accs=[a.astype("int64") for a in sr.accs],
+                          label=":" + ("pop" if pop else "ind") + label, **_band_of(p))
+        scale_infos.append(si)
+    return info, scale_infos
+
+
 def run_fit(col: Collector, case, sub="fit"):
+    """One algorithm object built the way BaseModel.fit does (AlgorithmSettings -> algorithm_factory), `run` on a freshly initialised
+    model; with case['twice'] the SAME object is run a second time on a second fresh, identical model."""
     from leaspy.algo import AlgorithmSettings, algorithm_factory
     from leaspy.exceptions import LeaspyAlgoInputError
 
@@ -716,15 +771,26 @@ def run_fit(col: Collector, case, sub="fit"):
     tcfg = dict(n_iter=case["n_iter"], ann=case["ann"])
     ref = ref_temperature_schedule(tcfg)
     out = dict(outcome=None, ref=ref, info={}, scale_infos=[])
-    df, data, ds = gen.dataset_from_case(case["cohort"])
-    model = gen.build_model(case["cfg"])
-    try:
+
+    def fresh_model():
+        df, data, ds = gen.dataset_from_case(case["cohort"])
+        model = gen.build_model(case["cfg"])
         model.initialize(ds)
+        return model, ds
+
+    try:
+        model, ds = fresh_model()
     except Exception as e:  # not the subject of this property
         col.exclude("model-initialisation-failed:" + type(e).__name__)
         out["outcome"] = "excluded"
         return out
-    rec = dict(trace=[], invs=[], iters=[], samplers={})
+    rec = {}
+
+    def reset():
+        rec.clear()
+        rec.update(trace=[], invs=[], iters=[], samplers={}, used=[])
+
+    reset()
     with warnings.catch_warnings():
         warnings.simplefilter("ignore")
         try:
@@ -752,52 +818,72 @@ def run_fit(col: Collector, case, sub="fit"):
             rec["invs"].append(algo.temperature_inv)
             return r
 
+        def w_sample(name, sampler):
+            o_sample = sampler.sample
+
+            def w(state, *, temperature_inv):
+                rec["used"].append((algo.current_iteration, name, temperature_inv))
+                return o_sample(state, temperature_inv=temperature_inv)
+
+            sampler.sample = w
+
         def w_inits(state, dataset):
             r = o_inits(state, dataset)
             for name, s in algo.samplers.items():
                 rec["samplers"][name] = SamplerRecorder(s)
+                w_sample(name, s)
             return r
 
         algo._initialize_annealing, algo._update_temperature, algo._initialize_samplers = w_init, w_upd, w_inits
-        try:
-            with contextlib.redirect_stdout(io.StringIO()):
-                algo.run(model, ds)
-        except LeaspyAlgoInputError as e:
-            if rec["iters"]:
-                col.fail(sub, "refused-after-iterations-started:" + exc_bucket(e), case, observed=f"after iteration {rec['iters'][-1]}: {e!r}",
-                         expected="refusal only at settings/initialisation time")
-            elif ref["must_accept"]:
-                col.fail(sub, "valid-config-refused:" + exc_bucket(e), case, observed=repr(e), expected="accepted")
-            out["outcome"] = "refused"
-            return out
-        except Exception as e:
-            if _in_schedule_code(e):
-                col.fail(sub, "accepted-config-does-not-run:" + exc_bucket(e), case,
-                         observed=f"after {len(rec['iters'])} iterations: {e!r}", expected=f"runs all {case['n_iter']} iterations")
-                out["outcome"] = "crashed"
-            else:
-                # a fit that dies elsewhere (e.g. LeaspyConvergenceError of the model update on a tiny cohort) says nothing about the
-                # schedules: counted, not judged
-                col.exclude("fit-failed-outside-schedule-code:" + exc_bucket(e))
-                out["outcome"] = "excluded"
-            return out
-    out["outcome"] = "accepted"
-    if rec["iters"] != list(range(1, case["n_iter"] + 1)) or len(rec["trace"]) != case["n_iter"] + 1:
-        col.fail(sub, "iterations-not-all-run", case, observed=f"temperature updates at iterations {rec['iters'][:50]}",
-                 expected=f"one per iteration 1..{case['n_iter']}")
-        return out
-    out["info"] = judge_temperature(col, sub, case, ref, rec["trace"], rec["invs"])
-    out["info"]["trace_head"] = [float(t) for t in rec["trace"][:12]]
-    for name, sr in sorted(rec["samplers"].items()):
-        pop = not type(sr.s).__name__.startswith("Individual")
-        p = case["pop"] if pop else case["ind"]
-        if not sr.order_ok or len(sr.stds) != case["n_iter"] + 1:
-            col.fail("fit-scale", "sampler-not-updated-once-per-iteration", case, observed=f"{name}: {len(sr.stds) - 1} std updates, {len(sr.accs)} acceptance updates",
-                     expected=f"{case['n_iter']} of each, interleaved")
-            continue
-        si = judge_scales(col, "fit-scale", case, stds=sr.stds, accs=[a.astype("int64") for a in sr.accs], label=":" + ("pop" if pop else "ind"),
-                          **_band_of(p))
-        out["scale_infos"].append(si)
+        n_runs = 2 if case.get("twice") else 1
+        for run_no in range(1, n_runs + 1):
+            label = "" if run_no == 1 else ":second-run"
+            if run_no == 2:
+                reset()
+                try:
+                    model, ds = fresh_model()
+                except Exception as e:
+                    col.exclude("model-initialisation-failed:" + type(e).__name__)
+                    break
+            try:
+                with contextlib.redirect_stdout(io.StringIO()):
+                    algo.run(model, ds)
+            except LeaspyAlgoInputError as e:
+                if run_no == 2:
+                    col.fail(sub, "second-run-of-same-object-refused:" + exc_bucket(e), case, observed=repr(e),
+                             expected="the object that ran once runs again")
+                    break
+                if rec["iters"]:
+                    col.fail(sub, "refused-after-iterations-started:" + exc_bucket(e), case, observed=f"after iteration {rec['iters'][-1]}: {e!r}",
+                             expected="refusal only at settings/initialisation time")
+                elif ref["must_accept"]:
+                    col.fail(sub, "valid-config-refused:" + exc_bucket(e), case, observed=repr(e), expected="accepted")
+                out["outcome"] = "refused"
+                return out
+            except Exception as e:
+                if _in_schedule_code(e):
+                    col.fail(sub, "accepted-config-does-not-run" + label + ":" + exc_bucket(e), case,
+                             observed=f"after {len(rec['iters'])} iterations{label}: {e!r}", expected=f"runs all {case['n_iter']} iterations")
+                    if run_no == 1:
+                        out["outcome"] = "crashed"
+                        return out
+                else:
+                    # a fit that dies elsewhere (e.g. LeaspyConvergenceError of the model update on a tiny cohort) says nothing about the
+                    # schedules: counted, not judged
+                    col.exclude("fit-failed-outside-schedule-code:" + exc_bucket(e))
+                    if run_no == 1:
+                        out["outcome"] = "excluded"
+                        return out
+                break
+            judged = _judge_fit_run(col, sub, case, ref, rec, label)
+            if run_no == 1:
+                out["outcome"] = "accepted"
+                if judged is None:
+                    return out
+                out["info"], out["scale_infos"] = judged
+            elif judged is not None:
+                out["info"]["second_run"] = True
+                out["scale_infos"] = out["scale_infos"] + judged[1]
     return out
 
 
@@ -961,7 +1047,7 @@ def f16_cases():
     """The reproducers of F16: the *default* annealing block with n_iter = 10 (n_ann 5 < 9 = n_plateau - 1) and neighbours."""
     sp = dict(L=25, band=[200, 400], f=0.1)
     base = dict(engine="fit", cfg=dict(kind="logistic", kwargs=dict(dimension=2, source_dimension=1, obs_models="gaussian-diagonal")),
-                cohort=F16_COHORT, sampler_pop="Gibbs", pop=sp, ind=sp, seed=0)
+                cohort=F16_COHORT, sampler_pop="Gibbs", pop=sp, ind=sp, seed=0, twice=True)
     return [
         dict(base, n_iter=10, ann=dict(do_annealing=True)),
         dict(base, n_iter=17, ann=dict(do_annealing=True)),  # n_ann 8 = n_plateau - 2
